@@ -109,6 +109,18 @@ func (s sortedResources) Less(i, j int) bool {
 		v := s.col[i].Get(r)
 		v2 := s.col[j].Get(r)
 
+		// Some implementations (like Wrapper) return an untyped nil
+		// for a nil nullable attribute.
+		if v == nil {
+			attr := s.col[i].Attrs()[r]
+			v = GetZeroValue(attr.Type, attr.Nullable)
+		}
+
+		if v2 == nil {
+			attr := s.col[j].Attrs()[r]
+			v2 = GetZeroValue(attr.Type, attr.Nullable)
+		}
+
 		// Here we return true if v < v2.
 		// The "!= inverse" part acts as a XOR operation so that
 		// the opposite boolean is returned when inverse sorting
